@@ -10,7 +10,7 @@ from c11 import dtok, rand_double
 PID = 'C13'
 LEVEL = 'exploration'
 VARIANTS = {'quick': ['asan', 'plain'], 'thorough': ['asan', 'plain', 'asan-tdbg']}
-RULE = ('destination precision and each operand precision independently from {53,64,65,128,200,1000,6400} bits; exponent differences none, 1, '
+RULE = ('[also: mpf_get_str guard class: n = the last digit count judged as carried, prec+1-limb operands with a few-bit top limb, every base 2..62, exponents up to +-4000 limbs] destination precision and each operand precision independently from {53,64,65,128,200,1000,6400} bits; exponent differences none, 1, '
         'prec-1, prec, prec+1, far (no/partial/full overlap); near-cancellation x(1+2^-j)-x, the ...1000/...0fff borrow pattern across 1..5 limbs, '
         'low zero limbs, top limb 1; add/sub/mul/div/sqrt, _ui forms, set_q/set_z/set_d/set_str judged by |res-exact| < 2^(2-p)|exact| in exact '
         'rational arithmetic (sqrt by squares) and res == exact whenever operands and the exact value fit p bits; floor/ceil/trunc/neg/abs/mul_2exp/'
